@@ -241,6 +241,33 @@ func checkC40(c *Check) {
 		mapping := strings.Contains(txt, "call basictl.LongRead recv=($, item.actorID)") && strings.Contains(txt, "call RpcInvokeReqExtra.ReadTL1 recv=item.RequestExtra($)") && strings.Contains(txt, "assign item.actorID = $.ActorId") && strings.Contains(txt, "assign item.queryID = $.QueryId")
 		c.Ob("extras/request-field-mapping", "ParseInvokeReq", mapping, r.pos(ir.Info.Decl.Pos()), "actor id → hctx.actorID, extra → hctx.RequestExtra, query id → hctx.queryID")
 	}
+	// the server writes the TL2 marker only in front of a successful result (an error is written without it), so the
+	// client may insist on the marker only after it has tried the error forms: the error decoding switch comes before
+	// the marker test in parseResponseExtra
+	if ir := r.ir(P + "parseResponseExtra"); ir != nil {
+		errSwitch, markerTest := -1, -1
+		for i, n := range ir.Body {
+			switch n := n.(type) {
+			case *SwitchN:
+				errs := 0
+				for _, cs := range n.Cases {
+					for _, m := range cs.Body {
+						if rt, ok := m.(*ReturnN); ok && len(rt.Vals) == 2 && strings.HasPrefix(rt.Vals[1], "lit:Error{") {
+							errs++
+						}
+					}
+				}
+				if errs >= 3 && errSwitch < 0 {
+					errSwitch = i
+				}
+			case *IfN:
+				if strings.Contains(blockText(n.Then), "RpcTL2Marker{}.TLTag()") && markerTest < 0 {
+					markerTest = i
+				}
+			}
+		}
+		c.Ob("extras/errors-decoded-before-tl2-marker-is-required", "parseResponseExtra", errSwitch >= 0 && markerTest > errSwitch, r.pos(ir.Info.Decl.Pos()), fmt.Sprintf("switch decoding the three error forms at top-level statement %d, TL2 marker requirement at %d", errSwitch, markerTest))
+	}
 	if ir := r.ir(P + "preparePacket"); ir != nil {
 		txt := irText(ir)
 		mapping := strings.Contains(txt, "call basictl.LongWrite recv=($, val.ActorID)") && strings.Count(txt, "call RpcInvokeReqExtra.WriteTL1 recv=val.Extra($)") == 2 && strings.Contains(txt, "lit:RpcDestActor{ActorId:val.ActorID}") && strings.Contains(txt, "lit:RpcInvokeReqHeader{QueryId:val.queryID}")
